@@ -29,7 +29,7 @@ try:
                        cwd=copy, env=env, capture_output=True, text=True)
     print('pytest on mutant:', r.stdout.strip().splitlines()[-1] if r.stdout.strip() else r.stderr[-300:])
     for pid in pids:
-        env = dict(os.environ, VERIF_REPO=copy, PYTHONHASHSEED='0')
+        env = dict(os.environ, VERIF_REPO=copy, PYTHONHASHSEED='0', VERIF_EVIDENCE_DIR=os.path.join(tmp, 'ev'))
         tier = os.environ.get('MUT_TIER', 'quick')
         r = subprocess.run(['/venv/bin/python', '-m', 'vf.run', pid, '--tier', tier], cwd='/verif', env=env,
                            capture_output=True, text=True)
@@ -41,6 +41,3 @@ try:
             print(r.stdout[-1500:], r.stderr[-1500:])
 finally:
     shutil.rmtree(tmp, ignore_errors=True)
-    # evidence files were rewritten by the mutant run: restore them from git
-    subprocess.run(['git', 'checkout', '--', 'evidence'], cwd='/verif', capture_output=True)
-    shutil.rmtree('/verif/replays', ignore_errors=True)
